@@ -29,7 +29,7 @@ ASSUMPTIONS = ["documented semantics of fit / partial_fit / use_base_clf / set_b
                "the wrapper's constructor requires a numeric missing_label compatible with y (NaN / float labels used)"]
 REQUIRED_MONITORS = ["C19.multiset-replay-checker", "C19.speed-up-equivalence"]
 CL = [0, 1, 2]
-KINDS = ["pwc", "pwc_knn", "pwc_speed", "pwc_speed_poly", "pwc_speed_knn", "nb", "tree", "nb_pf", "sgd_pf", "mixture"]
+KINDS = ["pwc", "pwc_knn", "pwc_speed", "pwc_speed_poly", "pwc_speed_knn", "pwc_speed_mean", "nb", "tree", "nb_pf", "sgd_pf", "mixture"]
 
 
 def _base(kind):
@@ -41,6 +41,8 @@ def _base(kind):
         return ParzenWindowClassifier(classes=CL, metric_dict={"gamma": 0.7}, class_prior=0.1, random_state=0)
     if kind == "pwc_speed_knn":     # neighbour limit + precomputed kernel: unlabelled training samples count as neighbours
         return ParzenWindowClassifier(classes=CL, n_neighbors=2, metric_dict={"gamma": 0.6}, random_state=0)
+    if kind == "pwc_speed_mean":    # bandwidth resolved from the training data of every fit, speed-up requested
+        return ParzenWindowClassifier(classes=CL, metric_dict={"gamma": "mean"}, random_state=0)
     if kind == "pwc_speed_poly":
         return ParzenWindowClassifier(classes=CL, metric="laplacian", metric_dict={"gamma": 0.3}, random_state=0)
     if kind in ("nb", "nb_pf"):
@@ -100,7 +102,8 @@ def run_ops(desc):
     base = _base(kind)
     base.set_params(missing_label=ml)
     speed = kind.startswith("pwc_speed")
-    w = IndexClassifierWrapper(clone(base), X, y, sw, ignore_partial_fit=not native_pf, enforce_unique_samples=eus,
+    sw_arg = sw.tolist() if (sw is not None and (desc["seed"] >> 8) % 3 == 0) else sw      # array-like means array-like
+    w = IndexClassifierWrapper(clone(base), X, y, sw_arg, ignore_partial_fit=not native_pf, enforce_unique_samples=eus,
                                use_speed_up=speed, missing_label=ml)
     if speed:
         w.precompute(np.arange(n), np.arange(n))
@@ -136,14 +139,16 @@ def run_ops(desc):
                     "w": None if wo is None else wo.tolist(), "set_base": setb})
         try:
             steps.begin()
+            yy_pass = None if yy is None else yy.copy()
+            wo_pass = None if wo is None else wo.copy()
             if op == "fit":
-                w.fit(idx, y=yy, sample_weight=wo, set_base_clf=setb)
+                w.fit(idx, y=yy_pass, sample_weight=wo_pass, set_base_clf=setb)
                 cur = new
                 if native_pf:
                     ref_pf = _fit_ref(base, X, cur, sw is not None)
             else:
                 ub = op == "pfit_base"
-                w.partial_fit(idx, y=yy, sample_weight=wo, use_base_clf=ub, set_base_clf=setb)
+                w.partial_fit(idx, y=yy_pass, sample_weight=wo_pass, use_base_clf=ub, set_base_clf=setb)
                 n_pf += 1
                 if ub and n_pf > 1:
                     restart_after_pf = True
@@ -161,6 +166,11 @@ def run_ops(desc):
                         ref_pf.partial_fit(X[idx], yv)
                     else:
                         ref_pf.partial_fit(X[idx], yv, sample_weight=np.array([t[2] for t in new], float))
+            # the caller reuses its buffers: what was passed must have been copied
+            if yy_pass is not None:
+                yy_pass[:] = (yy_pass + 1) % 3
+            if wo_pass is not None:
+                wo_pass[:] = 7.0
             if setb:
                 basem = list(cur)
                 if native_pf:
